@@ -1,10 +1,11 @@
 \* leg B generator: every address of the quantifier with its token rendering and Expected/MayReject
 SPECIFICATION Spec
 CONSTANTS
-  Schemes = {"udp", "tcp", "tcp+pipeline", "tls", "tls+pipeline", "https", "h3", "quic"}
-  Ports = {1, 53, 443, 853, 5353, 65535}
+  Schemes = {"udp", "tcp", "tcp+pipeline", "tls", "tls+pipeline", "https", "h3", "quic", "doq"}
+  Ports = {1, 53, 443, 853, 65535, 65589, 70000}
   TrimCut = 1
   DialPortRule = "url"
+  PortCheck = TRUE
   Export = TRUE
 INVARIANTS Emit
 CHECK_DEADLOCK FALSE
